@@ -47,7 +47,7 @@ type Case struct {
 	MutOther bool   `json:"mutother"` // mutate an item of //p2 instead (must not re-run t)
 }
 
-var hard = map[string]bool{"recursive": true, "mutual": true, "closure": true, "closure2": true, "default": true, "nested": true, "biglist": true, "bigdict": true, "bigset": true, "cyclic": true,
+var hard = map[string]bool{"closure-pair": true, "wrapped-twice": true, "recursive": true, "mutual": true, "closure": true, "closure2": true, "default": true, "nested": true, "biglist": true, "bigdict": true, "bigset": true, "cyclic": true,
 	"pre-vf": true, "pre-cache": true, "pre-host": true, "pre-os": true}
 
 // render returns definition text and the use expression of item i (with name suffix sfx).
@@ -84,6 +84,12 @@ func (it Item) render(i int, sfx string, mutated bool) (def, use string) {
 		return fmt.Sprintf("def mk%s(k):\n    def inner(x):\n        return [x, k]\n    return inner\ncl%s = mk%s(%s)\n", n, n, n, k), "cl" + n + "(1)"
 	case "closure2":
 		return fmt.Sprintf("def mk%s(k):\n    def mid(j):\n        def inner(x):\n            return [x, j, k]\n        return inner\n    return mid(2)\ncl%s = mk%s(%s)\n", n, n, n, k), "cl" + n + "(1)"
+	case "closure-pair":
+		// two closures of one def (one factory called twice); the mutation changes what the second captures
+		return fmt.Sprintf("def mk%s(k):\n    def inner(x):\n        return [x, k]\n    return inner\ncla%s = mk%s(\"first\")\nclb%s = mk%s(%s)\n", n, n, n, n, n, k), "[cla" + n + "(1), clb" + n + "(1)]"
+	case "wrapped-twice":
+		// one wrapper applied twice around a helper; the mutation changes the helper
+		return fmt.Sprintf("def hw%s(x):\n    return [x, %s]\ndef wrap%s(f):\n    def w(x):\n        return f(x)\n    return w\nst%s = wrap%s(wrap%s(hw%s))\n", n, k, n, n, n, n, n), "st" + n + "(1)"
 	case "nested":
 		return fmt.Sprintf("def ne%s(x):\n    def sub(y):\n        return [y, %s]\n    return sub(x)\n", n, k), "ne" + n + "(1)"
 	case "lambda":
@@ -283,7 +289,7 @@ func exec(c Case) (v ev.Verdict) {
 	return v
 }
 
-var kinds = []string{"const", "deepconst", "func", "recursive", "mutual", "default", "closure", "closure2", "nested", "lambda", "compr", "loop", "universal", "builtin-global",
+var kinds = []string{"closure-pair", "wrapped-twice", "const", "deepconst", "func", "recursive", "mutual", "default", "closure", "closure2", "nested", "lambda", "compr", "loop", "universal", "builtin-global",
 	"biglist", "bigdict", "bigset", "biginline", "cyclic", "pre-vf", "pre-host", "pre-package", "pre-cache", "pre-flag", "pre-builtins", "recursive", "closure", "const"}
 
 var pairs = [][2]string{{"7", "8"}, {"300", "65580"}, {"256", "257"}, {"65535", "65536"}, {"\"a\"", "\"b\""}, {"(1, 2)", "(1, 3)"}, {"[1, 300]", "[1, 301]"}, {"1.5", "2.5"}, {"None", "False"}, {"{\"k\": 1}", "{\"k\": 2}"}, {"b\"x\"", "b\"y\""}, {"12345678901234567890", "12345678901234567891"}}
